@@ -6,14 +6,16 @@ from ..compile_common import real_outcome, model_requests, same, brief
 
 PID = "C01"
 TECHNIQUE = "Lean 4 theorems on the compiler model (elaboration shape, leaf classification, error conditions) + exact correspondence of compile() + by-name meaning oracle"
-LEVEL_TEXT = ("Executable Lean model of the whole front end (PEG parser rule for rule, statement elaboration with the ordered named-outputs table, the inlining "
-              "pass as written, Recipe validation) with theorems about elaboration; tied to compile() by exact equality of the compiled recipes (embedded "
-              "copies included) or of the error kind and position on generated multi-block descriptions under random spellings and on malformed text; the "
-              "documented by-name meaning (written from the language reference) is compared with compile() on every generated description.")
-LEVEL_NOTE = ("Trusted: Lean kernel; parser/compiler model as far as correspondence exercises it; peggie's PEG semantics. The full refinement theorem "
-              "compile = by-name meaning (C01.4) is NOT proved: it is checked per generated description by the oracle (search, not proof); the theorems "
-              "cover elaboration (shape, leaf classification, error conditions) only.")
-LEAN_MODULES = ["RecipeGrid.Props.C01"]
+LEVEL_TEXT = ("Theorem (Lean, all inputs): the compiler model equals the documented by-name meaning - compile_eq_specCompile / compile_refines_spec: "
+              "elaboration resolves a name to a reference iff it was defined by an earlier statement (elab_refines_spec), and the inlining pass folds a "
+              "statement exactly when it has one output, one reference by name in the whole description, in the same block, for the whole amount "
+              "(folded_iff; ':=' keeps title and outline; cross-block and multi-output never fold), with the same error at the same offset and nothing "
+              "else rejected. The model (PEG parser rule for rule, elaboration, inlining pass as written, Recipe validation) is tied to compile() by exact "
+              "equality of results incl. embedded copies, error kind and position, on generated multi-block descriptions and malformed text.")
+LEVEL_NOTE = ("Trusted: Lean kernel; the hand-written parser/compiler model as far as correspondence exercises it (0 disagreements on every run); peggie's PEG "
+              "semantics. The theorem is about the AST the parser model returns; that printed descriptions parse back to their AST is C06 (theorems for "
+              "the lexical layers, oracle for whole descriptions). The by-name meaning is additionally compared with the real compile() per description.")
+LEAN_MODULES = ["RecipeGrid.Props.C01", "RecipeGrid.Props.C01b"]
 SOURCES = ["recipe_grid/compiler.py", "recipe_grid/parser/grammar.peg", "recipe_grid/parser/ast.py", "recipe_grid/recipe.py"]
 RULE = ("abstract multi-block descriptions (1-3 blocks, 1-5 statements, nesting <= 3 quick / <= 6 thorough, explicit/':='/inferred/multiple outputs, every amount "
         "form, names from a small pool with case/whitespace variants so that earlier/later/repeated/cross-block mentions collide) printed in a random "
